@@ -136,7 +136,19 @@ func runMiniGoSpec(c *Ctx, progs []*Prog, maxCh int, tag string) *mgBatch {
 			must(os.WriteFile(filepath.Join(dir, "MC_MiniGo.cfg"), []byte(cfg), 0o644))
 			mc := fmt.Sprintf("---- MODULE MC_MiniGo ----\nEXTENDS MiniGo\nChBound == Len(st.ch) <= %d /\\ Len(st.out) <= 400\n====\n", maxCh)
 			must(os.WriteFile(filepath.Join(dir, "MC_MiniGo.tla"), []byte(mc), 0o644))
-			r := sub.runTLC(dir, TLCOpts{Module: "MC_MiniGo", Cfg: "MC_MiniGo.cfg", Workers: 4, HeapMB: 6000, Timeout: c.pickDur(8, 40)})
+			r := sub.runTLC(dir, TLCOpts{Module: "MC_MiniGo", Cfg: "MC_MiniGo.cfg", Workers: 4, HeapMB: 6000, Timeout: c.pickDur(8, 40), AllowError: true})
+			if r.ExitCode != 0 {
+				// the semantics got stuck on a program: show which one (a generator or specification problem)
+				var pi int
+				for _, ln := range strings.Split(r.Output, "\n") {
+					fmt.Sscanf(strings.TrimSpace(ln), "/\\ p = %d", &pi)
+				}
+				src := ""
+				if pi >= 1 && lo+pi-1 < len(progs) {
+					src = progs[lo+pi-1].Source(false, nil)
+				}
+				fatalf("MiniGo.tla failed (exit %d) on a program of batch %d:\n%s\n--- program %d source\n%s", r.ExitCode, ci, clip(r.ErrorText, 2500), pi, src)
+			}
 			for _, s := range r.Records["BEH"] {
 				var bh MGBehaviour
 				if err := json.Unmarshal([]byte(s), &bh); err != nil {
